@@ -180,6 +180,7 @@ func rulesC09(c *Ctx) {
 	// the checks decide presence of nil-valued entries through TypedBucket.IsKeyPresent
 	ruleKeyPresence(c, "C09.PRESENCE")
 	ruleC09FanoutAlways(c)
+	ruleC09Dangling(c)
 	ruleC09Phases(c, cg, impls)
 	ruleReseek(c, "C09.RESEEK", c.prodFuncs("boltz"))
 }
@@ -757,4 +758,60 @@ func ruleC09FanoutAlways(c *Ctx) {
 		}
 	}
 	c.Check(ok, "C09.FANOUT", name+": no shortcut around the fan-out", p.Pos(fn.Pos()), "every successful return has entered both fan-out loops", why)
+}
+
+// ruleC09Dangling: the foreign-key check changes the REFERENCING entity (clears its fk field) only for a
+// dangling reference, and "dangling" is decided by asking the referenced store whether the entity is
+// present — not by a proxy such as a missing back-reference bucket, which is also what a referenced
+// entity that nothing pointed at yet looks like (that case is a repairable missing back-reference).
+func ruleC09Dangling(c *Ctx) {
+	p := c.P
+	fn := p.SSAFunc(p.Method("boltz", "fkIndex", "CheckIntegrity"))
+	name := FnName(fn)
+	c.Analysed(name)
+	fi := factsOf(fn)
+	isW := p.isBoltWrite()
+	sum := p.CallGraph().Summarize(isW)
+	n := 0
+	for _, call := range callsIn(fn) {
+		recv := callRecv(call.Common())
+		if recv == nil {
+			continue
+		}
+		// the receiver is the entity bucket itself or something embedded in it (promoted bbolt methods)
+		for i := 0; i < 4; i++ {
+			switch x := recv.(type) {
+			case *ssa.UnOp:
+				recv = x.X
+			case *ssa.FieldAddr:
+				recv = x.X
+			case *ssa.Field:
+				recv = x.X
+			}
+		}
+		src, ok := recv.(*ssa.Call)
+		if !ok || !invokeNamed(src, "GetEntityBucket") {
+			continue
+		}
+		may := isW(call)
+		if !may {
+			may, _ = sum.CallMay(call.Common())
+		}
+		if !may {
+			continue
+		}
+		n++
+		absent := fi.HoldsWhere(call.Block(), func(f Fact) bool {
+			if f.Kind != "true" || f.Pol {
+				return false
+			}
+			pc, isCall := f.V.(*ssa.Call)
+			return isCall && invokeNamed(pc, "IsEntityPresent")
+		})
+		construct := name + ": " + describeInstr(call)
+		c.Check(absent, "C09.DANGLING", construct, p.Pos(call.Pos()), "the referencing entity is changed only where IsEntityPresent said the referenced entity is absent ("+fi.Describe(call.Block())+")",
+			"the referencing entity's field is rewritten on a path where the referenced entity was not established to be absent by IsEntityPresent (facts: "+fi.Describe(call.Block())+"): a reference to an existing entity that merely lacks its back-reference is destroyed instead of repaired")
+	}
+	c.CallSites(n)
+	c.Floor("C09.DANGLING", 1)
 }
